@@ -24,7 +24,8 @@ EXTENDS Integers, Sequences, FiniteSets, TLC
 CONSTANTS Names,         \* the owner names that may occur (sequences of label ids)
           RNames,        \* the names that may occur inside rdata
           LabelBytes,    \* label id -> octets
-          Fixed,         \* choices for the fixed rdata size of a record
+          Fixed,         \* choices for the rdata size of a record without a name in its rdata (TXT: any size)
+          FixedWithName, \* choices for the rdata octets that precede the name of a record that has one (PTR: 0, SRV: 6)
           MaxQ, MaxAn, MaxNs, MaxAr,
           Typical, Absolute,
           RollbackGE,    \* TRUE: entries of the table with offset >= the start of the rolled back entry are dropped (the code)
@@ -56,7 +57,8 @@ WriteName(n, start, tbl) ==
 
 Universe ==
   [sec : {"qd"}, name : Names, kind : {"q"}, fixed : {0}, rname : {<<>>}]
-  \cup [sec : {"an", "ns", "ar"}, name : Names, kind : {"r"}, fixed : Fixed, rname : RNames \cup {<<>>}]
+  \cup [sec : {"an", "ns", "ar"}, name : Names, kind : {"r"}, fixed : FixedWithName, rname : RNames]
+  \cup [sec : {"an", "ns", "ar"}, name : Names, kind : {"r"}, fixed : Fixed, rname : {<<>>}]
 SeqsUpTo(S, n) == UNION {[1..k -> S] : k \in 0..n}
 
 Init ==
